@@ -53,6 +53,9 @@ pub enum LOp {
     UnpinAll,
 }
 
+/// for the fuzz target: maintenance inline (deterministic)
+pub const PIGGYBACK: MaintenanceMode = MaintenanceMode::Piggyback;
+
 #[derive(Debug, Clone)]
 pub struct LPlan {
     pub capacity: usize,
